@@ -147,12 +147,16 @@ ED_CHARS = [b"a", "é".encode(), "€".encode(), "😀".encode(), b" "]
 def ed_ops_alphabet():
     return ["i:" + hx(c) for c in ED_CHARS[:4]] + ["ml", "mr", "rm"]
 
+# every lead-byte class and the boundary scalars of each encoded length (random families; the exhaustive alphabet stays small)
+ED_CHARS_WIDE = ED_CHARS + [enc(c) for c in (0xBF, 0x7FF, 0x800, 0xE01, 0xFFF, 0x1000, 0xD7FF, 0xE000, 0xFFFD, 0xFFFF, 0x10000, 0x3F000, 0x10FFFF, 0x44F)]
+
 def rand_ed_ops(rng, n):
     ops = []
+    chars = ED_CHARS if rng.randrange(3) else ED_CHARS_WIDE
     for _ in range(n):
         k = rng.randrange(20)
-        if k < 9: ops.append("i:" + hx(rng.choice(ED_CHARS)))
-        elif k < 10: ops.append("i:" + hx(b"".join(rng.choice(ED_CHARS) for _ in range(rng.randrange(0, 5)))))
+        if k < 9: ops.append("i:" + hx(rng.choice(chars)))
+        elif k < 10: ops.append("i:" + hx(b"".join(rng.choice(chars) for _ in range(rng.randrange(0, 5)))))
         elif k < 13: ops.append("ml")
         elif k < 16: ops.append("mr")
         elif k < 19: ops.append("rm")
@@ -178,8 +182,11 @@ def rand_writer_ops(rng, sep=";", kv=":"):
     n = rng.choice([0, 1, 1, 2, 3, 4])
     ops = []
     for _ in range(n):
-        kind = rng.choice(["s", "s", "s", "l", "u", "f", "c", "t", "e"])
-        if kind == "e":
+        kind = rng.choice(["s", "s", "s", "l", "u", "f", "c", "t", "e", "g"])
+        if kind == "g":
+            # write!/writeln! with a literal format string (no run-time arguments): index into the literal table
+            ops.append("g" + kv + "%02x" % rng.randrange(8))
+        elif kind == "e":
             # write_list_element(name, description, longest_name): any column width, also one SMALLER than the name (bytes or chars)
             name = b"".join(rng.choice([b"a", b"b", b"-", "\u00e9".encode(), "\u0441".encode(), "\u20ac".encode()]) for _ in range(rng.randrange(0, 6)))
             hxe = lambda b: hx(b) if b else ""
@@ -190,6 +197,19 @@ def rand_writer_ops(rng, sep=";", kv=":"):
 
 KEYS = {"left": b"\x1b[D", "right": b"\x1b[C", "up": b"\x1b[A", "down": b"\x1b[B", "bs": b"\x08", "tab": b"\t"}
 RAW_CMDS = [b"echo", b"nl", b"crlf", b"ln", b"mid", b"lnmid", b"fmt", b"prompt", b"quiet", b"empty", b"help", b"he", b"foo", b"x"]
+
+def rand_do_line(rng, chars=None):
+    """a line for the scripted `do` command: every argument is one handler action (writes of every flavour, literal format strings,
+    set_prompt) - any order, any number"""
+    toks = []
+    for _ in range(rng.choice([1, 2, 2, 3, 4])):
+        k = rng.choice("sslnmpgcfute")
+        if k in "pg":
+            t = bytes([rng.choice(b"01234567abc")])
+        else:
+            t = b"".join(rng.choice(chars or [b"a", b"b", b" ", "\u00e9".encode(), b"x", b"-"]) for _ in range(rng.randrange(0, 4)))
+        toks.append(quote_token(k.encode() + t))
+    return b"do " + b" ".join(toks)
 
 def rand_word(rng):
     k = rng.randrange(10)
@@ -202,7 +222,10 @@ def rand_session_ops(rng, nops=30, api=True, malformed=False, faults=False):
     ops = []
     for _ in range(nops):
         k = rng.randrange(100)
-        if k < 30:
+        if k < 4:
+            ops.append("b:" + hx(rand_do_line(rng)))
+            if rng.randrange(5): ops.append("b:0d")
+        elif k < 30:
             w = rand_word(rng)
             if rng.randrange(4) == 0:
                 w = quote_token(w + b" " + rand_word(rng))
@@ -247,7 +270,10 @@ def rand_session_w1(rng, nops=30):
     ops = []
     for _ in range(nops):
         k = rng.randrange(100)
-        if k < 25:
+        if k < 4:
+            ops.append("b:" + hx(rand_do_line(rng, chars=[b"a", b"b", b" ", "\u00e9".encode(), b"x"])))
+            if rng.randrange(5): ops.append("b:0d")
+        elif k < 25:
             w = rng.choice([b"echo", b"nl", b"crlf", b"ln", b"mid", b"lnmid", b"fmt", b"prompt", b"quiet", b"help", b"he", b"x", b"hel"])
             ops.append("b:" + hx(w))
         elif k < 33: ops.append("b:20")
@@ -264,7 +290,8 @@ def rand_session_w1(rng, nops=30):
             ws = []
             for _ in range(n):
                 t = b"".join(rng.choice([b"a", b"b", b"\n", b"\r\n", b" ", "é".encode(), b"x", b""]) for _ in range(rng.randrange(0, 6)))
-                ws.append(rng.choice("sluc") + hx(t))
+                if rng.randrange(8) == 0: ws.append("g%02x" % rng.randrange(8))
+                else: ws.append(rng.choice("sluc") + hx(t))
             ops.append("w:" + ",".join(ws))
         else: ops.append("p:%d" % rng.randrange(4))
     return "%d %d %d raw %s" % (cap, hcap, rng.randrange(4), ";".join(ops))
